@@ -965,6 +965,7 @@ static void fam_c11_repeat(G& g, Plan& p) {
   int W = (int)g.below(6);      // small, large, huge, aligned-huge, mixed, multi-threaded with thread exit
   int N = 3 + (int)g.below(6);
   int nthreads_per_rep = (W == 5) ? 1 + (int)g.below(3) : 0;
+  const bool sequential = (W == 5) && g.chance(0.5); if (sequential) nthreads_per_rep = 2 + (int)g.below(3);
   p.progs.resize((size_t)(1 + N * nthreads_per_rep));
   p.nslots = 200;
   Program& P0 = p.progs[0];
@@ -992,8 +993,9 @@ static void fam_c11_repeat(G& g, Plan& p) {
       int m = 10 + (int)g2.below(60);
       for (int i = 0; i < m; i++) { int s = 130 + t * 20 + (int)g2.below(20); P.ops.push_back(g2.chance(0.55) ? mk(OP_malloc, s, gen_size(g2, SM_SMALL | SM_MEDIUM | SM_LARGE)) : mk(OP_free, g2.chance(0.3) ? (int)g2.below(120) : s)); }
       P0.ops.push_back(mk(OP_spawn, pi));
+      if (sequential) P0.ops.push_back(mk(OP_join, pi));      // one after the other: a later thread re-uses what an earlier one left (thread metadata, abandoned segments)
     }
-    for (int t = 0; t < nthreads_per_rep; t++) P0.ops.push_back(mk(OP_join, 1 + rep * nthreads_per_rep + t));
+    if (!sequential) for (int t = 0; t < nthreads_per_rep; t++) P0.ops.push_back(mk(OP_join, 1 + rep * nthreads_per_rep + t));
     P0.ops.push_back(mk(OP_verify_all));
     P0.ops.push_back(mk(OP_free_all));
     P0.ops.push_back(mk(OP_footprint_mark));
@@ -1250,6 +1252,55 @@ static void fam_c03_align(G& g, Plan& p) {
     if (g.chance(0.1)) P.ops.push_back(mk(OP_collect, -1, g.below(2)));
   }
   P.ops.push_back(mk(OP_verify_all));
+}
+
+// aligned blocks that lie inside over-allocated blocks, through everything that can happen to their page while they are live: the page
+// fills up and comes back, is moved within its queue, is abandoned by its thread and adopted by another one. Afterwards the pointers
+// are measured, freed (as interior pointers) and their size class is allocated from again
+static void fam_c03_pagelife(G& g, Plan& p) {
+  const bool threaded = g.chance(0.5);
+  p.nslots = 2600; p.progs.resize(threaded ? 2 : 1);
+  Program& P0 = p.progs[0];
+  // request s with alignment al > 16 is served from a block of s + al - 1 bytes: pick the class of that size for the plain requests
+  size_t al = (size_t)1 << (5 + g.below(8));                 // 32 .. 4096
+  size_t s = g.chance(0.5) ? 1 + g.below(al) : 1 + g.below(3000);
+  size_t over = s + al - 1; if (g.padded) over += 8;
+  auto bs = bin_sizes(); size_t cls = 0; for (size_t b : bs) if (b >= over) { cls = b; break; }
+  size_t plain = g.padded ? cls - 8 : cls;
+  int per_page = (int)((64 * KiB) / cls); if (cls > 8 * KiB) per_page = (int)((512 * KiB) / cls); if (per_page < 2) per_page = 2; if (per_page > 400) per_page = 400;
+  const int W = per_page + 8;
+  auto aligned = [&](Program& P, int slot) { int v = (int)g.below(6); Op o = mk(v < 3 ? OP_malloc_aligned : v < 4 ? OP_zalloc_aligned : v < 5 ? OP_memalign : OP_posix_memalign, slot, s, al); P.ops.push_back(o); };
+  const int A0 = 2000; int na = 0;      // aligned blocks live in slots [A0, A0 + na)
+  if (threaded) {
+    Program& Q = p.progs[1]; Q.explicit_done = g.chance(0.5);
+    int n = 4 + (int)g.below(30);
+    for (int i = 0; i < n; i++) { if (g.chance(0.6) && na < 300) aligned(Q, A0 + na++); else Q.ops.push_back(mk(OP_malloc, 1000 + i, plain)); }
+    if (g.chance(0.5)) { Op o = mk(OP_fill_page, 1100, plain, (uint64_t)W, (uint64_t)W); Q.ops.push_back(o); if (na < 300) aligned(Q, A0 + na++); }
+    P0.ops.push_back(mk(OP_spawn, 1)); P0.ops.push_back(mk(OP_join, 1));
+    // adoption: a forced collect, or allocations of the same class (and a large one that asks for a fresh segment)
+    int how = (int)g.below(3);
+    if (how == 0) P0.ops.push_back(mk(OP_collect, -1, 1));
+    else if (how == 1) { for (int i = 0; i < 6; i++) P0.ops.push_back(mk(OP_malloc, 1500 + i, plain)); P0.ops.push_back(mk(OP_malloc, 1510, 3 * MiB)); }
+    else { set_env(p, "ABANDONED_RECLAIM_ON_FREE", 1); P0.ops.push_back(mk(OP_free, A0 + (int)g.below((uint64_t)na + 1))); }
+  }
+  else {
+    int nfill = 0; std::vector<int> refs;
+    int steps = 5 + (int)g.below(10);
+    for (int st = 0; st < steps; st++) {
+      int mv = g.pick({0, 0, 1, 1, 1, 2, 2, 3, 4});
+      if (mv == 0 && (nfill + 1) * W < 1900) { Op o = mk(OP_fill_page, nfill * W, plain - g.below(2), (uint64_t)W, (uint64_t)W); P0.ops.push_back(o); refs.push_back(nfill * W); nfill++; }
+      else if (mv == 1) { int k = 1 + (int)g.below(4); for (int i = 0; i < k && na < 300; i++) aligned(P0, A0 + na++); }
+      else if (mv == 2 && !refs.empty()) P0.ops.push_back(mk(OP_free_page, refs[g.below(refs.size())], g.chance(0.5) ? 1 : g.below(4), g.below(2), g.chance(0.5) ? 0 : 1 + g.below(3)));
+      else if (mv == 3) { for (int i = 0; i < 1 + (int)g.below(3); i++) P0.ops.push_back(mk(OP_malloc, 1900 + (int)g.below(90), plain)); }
+      else P0.ops.push_back(mk(OP_collect, -1, g.below(2)));
+    }
+  }
+  P0.ops.push_back(mk(OP_verify_all));
+  // free some of the aligned blocks through the different entry points, then allocate in their class again
+  for (int i = 0; i < na; i++) if (g.chance(0.5)) P0.ops.push_back(gen_free(g, A0 + i));
+  for (int i = 0; i < 20 + (int)g.below(40); i++) P0.ops.push_back(mk(OP_malloc, 2400 + i, plain));
+  for (int i = 0; i < na; i++) if (g.chance(0.3)) { int w = (int)g.below(3); P0.ops.push_back(w == 0 ? mk(OP_realloc, A0 + i, s + g.below(64)) : w == 1 ? mk(OP_realloc_aligned, A0 + i, s + g.below(64), al) : mk(OP_expand, A0 + i, s)); }
+  P0.ops.push_back(mk(OP_verify_all));
 }
 
 // ---------------------------------------------------------------------------------
@@ -1842,6 +1893,7 @@ static void fam_c17_misuse(G& g, Plan& p) {
   p.cfg.spurious_p = 0;
   Program& P = p.progs[0];
   int mix = SM_SMALL | SM_BOUNDARY;
+  const int bigmix = g.chance(0.4) ? (SM_MEDIUM | SM_LARGE | SM_BOUNDARY) : 0;     // the overflow check is not limited to small blocks
   int kind = (int)g.below(3);
   int n = 40 + (int)g.below(200);
   // a few size classes so that pages hold several live blocks
@@ -1852,6 +1904,7 @@ static void fam_c17_misuse(G& g, Plan& p) {
     else if (k < 30) P.ops.push_back(gen_realloc(g, slot, mix, 0, false));
     else if (k < 33) P.ops.push_back(mk(OP_collect, -1, g.below(2)));
     else if (k < 41) { Op o = mk(kind == 0 ? OP_double_free : kind == 1 ? OP_overflow_byte : OP_corrupt_free_link, (kind == 1 && nt > 1 && g.chance(0.5)) ? 150 + (int)g.below(40) : slot, g.below(1000000)); if (kind == 0) o.b = g.pick<uint64_t>({0, 1, 1, 2, 2, 4, 4}); P.ops.push_back(o); }
+    else if (bigmix && g.chance(0.12)) { int bs = (int)g.below(150); P.ops.push_back(mk(OP_malloc, bs, gen_size(g, bigmix))); if (g.chance(0.6)) P.ops.push_back(mk(OP_overflow_byte, bs, g.below(1000000))); }
     else P.ops.push_back(mk(g.chance(0.1) ? OP_zalloc : OP_malloc, slot, g.chance(0.12) ? 1 + g.below(7) : g.chance(0.7) ? cls[g.below(cls.size())] : gen_size(g, mix)));
     if (g.chance(0.02)) kind = (int)g.below(3);
   }
@@ -1898,6 +1951,7 @@ static const FamilyDef FAMILIES[] = {
   {"c11_heapdelete", "C11", fam_c11_heapdelete, 0, true},
   {"c15_arenas", "C15", fam_c15_arenas, 0, true},
   {"c17_misuse", "C17", fam_c17_misuse, 1, true},
+  {"c03_pagelife", "C03", fam_c03_pagelife, 1, true},
   {"c03_align", "C03", fam_c03_align, 1, false},
   {"c04_dirty", "C04", fam_c04_dirty, 1, true},
   {"c04_grow", "C04", fam_c04_grow, 1, false},
